@@ -245,4 +245,60 @@ def fitHist (ev : Option EvCfg) (hasVal : Bool) (st0 : EvState) (ds : List Epoch
 def testReturn (batches : List (List Sample)) : List (List Int) × List (List Int) :=
   (batches.flatten.map (·.score), batches.flatten.map (·.label))
 
+/-! ## a `Trainer` / `Evaluator` that is used again
+
+`fit` starts with `self.history = {}` (l.136): the dictionary a call returns is a NEW object that holds what THIS
+call recorded, whatever the Trainer did before (earlier `fit` calls with or without a validation loader, `test`,
+`compile` again), and the dictionary an earlier call returned is never touched again.  What does cross from one
+call to the next is the evaluator object: `fit` never resets it, so it finds what the evaluator had accumulated
+(nothing after a `fit` that returned, after `compute` or `reset`).  A session is a list of calls on the objects
+`compile` tied together; the evaluator's state is the only thing threaded through it. -/
+
+/-- one call made on a compiled `Trainer` (or directly on its evaluator) -/
+inductive Call where
+  /-- `trainer.fit(train_loader, len ds, validation_loader if hasVal)` -/
+  | fit (hasVal : Bool) (ds : List EpochData)
+  /-- `trainer.test(loader)` -/
+  | test (batches : List (List Sample))
+  /-- `evaluator.step(labels, outputs, prefix)` by the user, between two calls of the trainer -/
+  | userStep (pre : Option String) (b : List Sample)
+  | userCompute (pre : Option String)
+  | userReset
+
+/-- what a call returns -/
+inductive Ret where
+  | hist (h : Hist)
+  | testRet (yPred yTrue : List (List Int))
+  | metrics (ms : List Metric)
+  | unit
+
+/-- one call: the evaluator's new state and the value returned; `none` when the call raises.  `test` does not look at
+    the evaluator (l.232-249); the direct evaluator calls need an evaluator -/
+def Call.run (ev : Option EvCfg) (st : EvState) : Call → Option (EvState × Ret)
+  | .fit hasVal ds => (fitHist ev hasVal st ds).map (fun r => (r.1, .hist r.2))
+  | .test batches => let r := testReturn batches; some (st, .testRet r.1 r.2)
+  | .userStep pre b => match ev with
+    | none => none
+    | some cfg => (evStep cfg st pre b).map (fun r => (r.1, .metrics r.2))
+  | .userCompute pre => match ev with
+    | none => none
+    | some cfg => let r := evCompute cfg st pre; some (r.1, .metrics r.2)
+  | .userReset => some (evReset st, .unit)
+
+/-- a session: successive calls on one compiled trainer and its evaluator -/
+def session (ev : Option EvCfg) : EvState → List Call → Option (EvState × List Ret)
+  | st, [] => some (st, [])
+  | st, c :: cs =>
+    match c.run ev st with
+    | none => none
+    | some (st', r) => (session ev st' cs).map (fun p => (p.1, r :: p.2))
+
+/-- successive `fit` calls only (a second training stage on the same compiled trainer) -/
+def refits (ev : Option EvCfg) : EvState → List (Bool × List EpochData) → Option (EvState × List Hist)
+  | st, [] => some (st, [])
+  | st, c :: cs =>
+    match fitHist ev c.1 st c.2 with
+    | none => none
+    | some (st', h) => (refits ev st' cs).map (fun p => (p.1, h :: p.2))
+
 end Synap.Train
